@@ -76,6 +76,7 @@ def loop_read_count(tree):
     return best
 
 
+@core.crash_guard({'reads': 0, 'orders': 0, 'exhaustive_orders': False, 'queries': 0})
 def check_module(src, filename, rnd, k_random=6, baseline_sample=None, visible=True):
     """Returns (problems, info)."""
     from supp import assistant
